@@ -34,6 +34,8 @@ SCAFFOLD = [('S', {
     'L1': '=DATEDIF(H1,M1,"D")', 'L2': '=DATEDIF(H1,M1,"M")', 'L3': '=DATEDIF(H1,M1,"Y")', 'L4': '=DATEDIF(H1,M1,"YM")',
     'N1': '=NETWORKDAYS(H1,M1)', 'N2': '=NETWORKDAYS(H1,M1,P1:P4)', 'Q5': 1,
     'R1': '=YEAR(H1)', 'R2': '=MONTH(H1)', 'R3': '=DAY(H1)',
+    # arguments that are expressions / bracketed / read through a formula cell
+    'S1': '=H1', 'J2': '=EDATE(S1,I1+0)', 'K2': '=EOMONTH((H1),(I1))', 'D2': '=DATE(A1+0,(B1),C1*1)',
 })]
 
 
@@ -250,7 +252,9 @@ def run_date_ov(cases, stats):
     for i, c in enumerate(cases):
         y, m = c['y'], c['m']
         for d in range(c['d'][0], c['d'][1] + 1):
-            o = S.run(cls, [('A1', y), ('B1', m), ('C1', d)], ['D1', 'E1', 'F1', 'G1', 'E2', 'F2', 'G2'], stats)
+            o = S.run(cls, [('A1', y), ('B1', m), ('C1', d)], ['D1', 'E1', 'F1', 'G1', 'E2', 'F2', 'G2', 'D2'], stats)
+            judge_date(y, m, d, {'date': o[7]}, 'ov-expression-arguments', stats, i, vio)
+            o = o[:7]
             stats['x:date_triples'] += 1
             stats['cases'] += 1
             judge_date(y, m, d, dict(zip(['date', 'year', 'month', 'day', 'year2', 'month2', 'day2'], o)), 'ov', stats, i, vio)
@@ -323,7 +327,9 @@ def run_edate_ov(cases, stats):
     for i, c in enumerate(cases):
         d = undo(c['d'])
         for k in OFFSETS:
-            o = S.run(cls, [('H1', d), ('I1', k)], ['J1', 'K1', 'R1', 'R2', 'R3'], stats)
+            o = S.run(cls, [('H1', d), ('I1', k)], ['J1', 'K1', 'R1', 'R2', 'R3', 'J2', 'K2'], stats)
+            judge_edate(d, k, o[5], o[6], 'ov-expression-arguments', stats, i, vio)
+            o = o[:5]
             stats['x:edate_pairs'] += 1
             stats['cases'] += 1
             judge_edate(d, k, o[0], o[1], 'ov', stats, i, vio, o[2:])
